@@ -74,6 +74,8 @@ def native_presentations():
         npm = 6
         X = rnd.normal(size=(2, 2, nq, npm))
         w = rnd.uniform(0.5, 4.0, size=nq)
+        if nq >= 3:
+            w[nq // 2] = 0.0          # a q-point listed with weight 0 (band-path point) in the MIDDLE of the list: it contributes nothing wherever it is listed
         base = numpy.asarray(ns.average_over_modes(X.copy(), w))
         M = X.copy()
         M[..., 0, :3] = 0
